@@ -14,6 +14,7 @@ type binding struct {
 	pat   string
 	rhs   string
 	isLet bool
+	raw   []string // already rendered lines (assignments)
 }
 
 type svar struct {
@@ -63,6 +64,10 @@ func indent(lines []string) []string {
 func emitPre(p []binding, tail []string) []string {
 	var out []string
 	for _, b := range p {
+		if b.raw != nil {
+			out = append(out, b.raw...)
+			continue
+		}
 		if b.isLet {
 			out = append(out, "let "+b.pat+" := "+b.rhs+" in")
 		} else {
@@ -399,6 +404,18 @@ func terminates(list []ast.Stmt) bool {
 		return terminates(s.Body.List) && terminates(elseList(s))
 	case *ast.ForStmt:
 		return s.Cond == nil && !hasBreak(s.Body)
+	case *ast.SwitchStmt:
+		hasDef := false
+		for _, c := range s.Body.List {
+			cc := c.(*ast.CaseClause)
+			if cc.List == nil {
+				hasDef = true
+			}
+			if !terminates(cc.Body) {
+				return false
+			}
+		}
+		return hasDef
 	}
 	return false
 }
@@ -534,6 +551,13 @@ func (g *fnGen) block(list []ast.Stmt, k kctx) []string {
 			return g.block(append([]ast.Stmt{s.Init, &s2}, rest...), k)
 		}
 		return g.ifStmt(s, rest, k)
+	case *ast.SwitchStmt:
+		if s.Init != nil {
+			s2 := *s
+			s2.Init = nil
+			return g.block(append([]ast.Stmt{s.Init, &s2}, rest...), k)
+		}
+		return g.switchStmt(s, rest, k)
 	case *ast.ForStmt:
 		if s.Init != nil {
 			s2 := *s
@@ -604,9 +628,15 @@ func (g *fnGen) isMonadicCall(e ast.Expr) bool {
 func (g *fnGen) ifStmt(s *ast.IfStmt, rest []ast.Stmt, k kctx) []string {
 	var p []binding
 	c := g.expr(s.Cond, &p)
-	thenT := terminates(s.Body.List)
 	els := elseList(s)
-	elseT := s.Else != nil && terminates(els)
+	return g.ifCore(p, c, terminates(s.Body.List), s.Else != nil && terminates(els),
+		func(kin kctx) []string { return g.block(s.Body.List, kin) },
+		func(kin kctx) []string { return g.block(els, kin) },
+		s, rest, k)
+}
+
+// ifCore: if c then A else B, followed by rest; A and B are given as generators
+func (g *fnGen) ifCore(p []binding, c string, thenT, elseT bool, thenGen, elseGen func(kctx) []string, node ast.Stmt, rest []ast.Stmt, k kctx) []string {
 	kin := k
 	var head []string
 	switch {
@@ -618,7 +648,7 @@ func (g *fnGen) ifStmt(s *ast.IfStmt, rest []ast.Stmt, k kctx) []string {
 	default:
 		// both branches may reach the statements after the if: a join point
 		// over the variables assigned in the branches
-		vs := g.assigned(s.Pos(), s.End(), s.Body, s.Else)
+		vs := g.assigned(node.Pos(), node.End(), node)
 		g.joinN++
 		name := fmt.Sprintf("k_%d", g.joinN)
 		stName := "st"
@@ -635,11 +665,77 @@ func (g *fnGen) ifStmt(s *ast.IfStmt, rest []ast.Stmt, k kctx) []string {
 	}
 	out := emitPre(p, head)
 	out = append(out, "if "+c+" then (")
-	out = append(out, indent(g.block(s.Body.List, kin))...)
+	out = append(out, indent(thenGen(kin))...)
 	out = append(out, ") else (")
-	out = append(out, indent(g.block(els, kin))...)
+	out = append(out, indent(elseGen(kin))...)
 	out = append(out, ")")
 	return out
+}
+
+// switch [tag] { case a, b: ... default: ... } as a chain of ifs (no fallthrough,
+// no break inside)
+func (g *fnGen) switchStmt(s *ast.SwitchStmt, rest []ast.Stmt, k kctx) []string {
+	var p []binding
+	tag := ""
+	if s.Tag != nil {
+		if !isIntegerType(g.typeOf(s.Tag)) {
+			g.failf(s, "switch on a value of type %s", g.typeOf(s.Tag))
+		}
+		tag = g.expr(s.Tag, &p)
+		if strings.ContainsAny(tag, " ") {
+			tmp := g.fresh()
+			p = append(p, binding{pat: tmp, rhs: tag, isLet: true})
+			tag = tmp
+		}
+	}
+	var cases []*ast.CaseClause
+	var def []ast.Stmt
+	hasDef := false
+	for _, c := range s.Body.List {
+		cc := c.(*ast.CaseClause)
+		for _, st := range cc.Body {
+			if b, ok := st.(*ast.BranchStmt); ok && b.Tok == token.FALLTHROUGH {
+				g.failf(b, "fallthrough")
+			}
+		}
+		if hasBreak(&ast.BlockStmt{List: cc.Body}) {
+			g.failf(cc, "break inside a switch")
+		}
+		if cc.List == nil {
+			def, hasDef = cc.Body, true
+		} else {
+			cases = append(cases, cc)
+		}
+	}
+	tailT := make([]bool, len(cases)+1) // the chain from clause i on cannot fall through
+	tailT[len(cases)] = hasDef && terminates(def)
+	for i := len(cases) - 1; i >= 0; i-- {
+		tailT[i] = terminates(cases[i].Body) && tailT[i+1]
+	}
+	var chain func(i int, pre []binding, kin kctx, rest []ast.Stmt) []string
+	chain = func(i int, pre []binding, kin kctx, rest []ast.Stmt) []string {
+		if i == len(cases) {
+			return emitPre(pre, g.block(append(append([]ast.Stmt{}, def...), rest...), kin))
+		}
+		cc := cases[i]
+		var conds []string
+		for _, e := range cc.List {
+			v := g.expr(e, &pre)
+			if tag != "" {
+				v = "(" + paren(tag) + " =? " + paren(v) + ")"
+			}
+			conds = append(conds, v)
+		}
+		c := conds[0]
+		for _, d := range conds[1:] {
+			c = "(orb " + paren(c) + " " + paren(d) + ")"
+		}
+		return g.ifCore(pre, c, terminates(cc.Body), tailT[i+1],
+			func(k2 kctx) []string { return g.block(cc.Body, k2) },
+			func(k2 kctx) []string { return chain(i+1, nil, k2, nil) },
+			s, rest, kin)
+	}
+	return chain(0, p, k, rest)
 }
 
 // for cond { body; post } / for k[, v] := range x { body }
@@ -897,9 +993,8 @@ func (g *fnGen) assignTo(lhs ast.Expr, v string) []string {
 		if !ok || sel.Kind() != types.FieldVal {
 			g.failf(lhs, "assignment to this selector")
 		}
-		id, ok := ast.Unparen(x.X).(*ast.Ident)
-		if !ok {
-			g.failf(lhs, "assignment to a field of something that is not a variable")
+		if rootIdent(g.info, x.X) == nil {
+			g.failf(lhs, "assignment to a field of something that is not a variable or a field path")
 		}
 		n := g.t.structOf(g.typeOf(x.X))
 		if n == nil {
@@ -909,8 +1004,13 @@ func (g *fnGen) assignTo(lhs ast.Expr, v string) []string {
 		if !si.has(x.Sel.Name) {
 			g.failf(lhs, "field %s.%s has a type outside the subset", si.name, x.Sel.Name)
 		}
-		name := coqIdent(id.Name)
-		return []string{"let " + name + " := set_" + si.name + "_" + x.Sel.Name + " " + name + " " + paren(v) + " in"}
+		// x.f = v is x = set_f x v, recursively along the field path
+		var p []binding
+		cur := g.expr(x.X, &p)
+		if len(p) != 0 {
+			g.failf(lhs, "assignment through an expression with effects")
+		}
+		return g.assignTo(x.X, "set_"+si.name+"_"+x.Sel.Name+" "+paren(cur)+" "+paren(v))
 	}
 	g.failf(lhs, "assignment to %T", lhs)
 	return nil
@@ -953,25 +1053,55 @@ func (g *fnGen) assign(s *ast.AssignStmt) []string {
 		v := g.exprAs(s.Rhs[0], g.lhsType(s.Lhs[0], s.Rhs[0]), &p)
 		return emitPre(p, g.assignTo(s.Lhs[0], v))
 	case len(s.Rhs) == 1:
+		if ta, ok := ast.Unparen(s.Rhs[0]).(*ast.TypeAssertExpr); ok && len(s.Lhs) == 2 {
+			// v, ok := x.(T) on opaque handles
+			name, ok := g.t.assertParam(g.fi.pk, ta)
+			if !ok {
+				g.failf(s, "type assertion (only between opaque types named by --iface T.as.T2)")
+			}
+			var pats []string
+			for _, l := range s.Lhs {
+				id, ok := ast.Unparen(l).(*ast.Ident)
+				if !ok {
+					g.failf(s, "type assertion assigned to something that is not a variable")
+				}
+				if id.Name == "_" {
+					pats = append(pats, "_")
+				} else {
+					pats = append(pats, coqIdent(id.Name))
+				}
+			}
+			var p []binding
+			x := g.expr(ta.X, &p)
+			p = append(p, binding{pat: tuple(pats), rhs: name + " " + paren(x)})
+			return emitPre(p, nil)
+		}
 		call, ok := ast.Unparen(s.Rhs[0]).(*ast.CallExpr)
 		if !ok {
 			g.failf(s, "multi-value assignment from something that is not a call")
 		}
 		var pats []string
+		var after [][]string
 		for _, l := range s.Lhs {
 			id, ok := ast.Unparen(l).(*ast.Ident)
-			if !ok {
-				g.failf(s, "multi-value assignment to something that is not a variable")
-			}
-			if id.Name == "_" {
+			switch {
+			case ok && id.Name == "_":
 				pats = append(pats, "_")
-			} else {
+			case ok:
 				pats = append(pats, coqIdent(id.Name))
+			default:
+				// a field or an element: through a temporary
+				tmp := g.fresh()
+				pats = append(pats, tmp)
+				after = append(after, g.assignTo(l, tmp))
 			}
 		}
 		var p []binding
 		if !g.callStmt(call, &p, pats...) {
 			g.failf(s, "multi-value assignment from this call")
+		}
+		for _, a := range after {
+			p = append(p, binding{raw: a})
 		}
 		return emitPre(p, nil)
 	case len(s.Lhs) == len(s.Rhs):
@@ -1024,13 +1154,19 @@ func (g *fnGen) callStmt(call *ast.CallExpr, p *[]binding, pats ...string) bool 
 		if len(pats) != nres {
 			g.failf(call, "call with %d results bound to %d places", nres, len(pats))
 		}
+		var writeBack []string
 		if c.mutates {
 			sel := ast.Unparen(call.Fun).(*ast.SelectorExpr)
-			id, ok := ast.Unparen(sel.X).(*ast.Ident)
-			if !ok {
-				g.failf(call, "call of a receiver-modifying method on something that is not a variable")
+			if id, ok := ast.Unparen(sel.X).(*ast.Ident); ok {
+				pats = append([]string{coqIdent(id.Name)}, pats...)
+			} else if rootIdent(g.info, sel.X) != nil {
+				// the receiver is a field path: the new value is stored back
+				tmp := g.fresh()
+				pats = append([]string{tmp}, pats...)
+				writeBack = g.assignTo(sel.X, tmp)
+			} else {
+				g.failf(call, "call of a receiver-modifying method on something that is not a variable or a field path")
 			}
-			pats = append([]string{coqIdent(id.Name)}, pats...)
 		}
 		term := g.userCall(call, c, p)
 		pat := tuple(pats)
@@ -1040,6 +1176,9 @@ func (g *fnGen) callStmt(call *ast.CallExpr, p *[]binding, pats ...string) bool 
 		*p = append(*p, binding{pat: pat, rhs: term, isLet: c.pure})
 		if c.pure && len(pats) > 1 {
 			(*p)[len(*p)-1].pat = "'" + pat
+		}
+		if writeBack != nil {
+			*p = append(*p, binding{raw: writeBack})
 		}
 		return true
 	}
@@ -1446,11 +1585,14 @@ func (g *fnGen) userCall(call *ast.CallExpr, c *fnInfo, p *[]binding) string {
 
 // ifaceTerm: a call of an interface method that is a parameter of the translation
 func (g *fnGen) ifaceTerm(call *ast.CallExpr, p *[]binding) (string, int, bool) {
-	name, sig, ok := g.t.ifaceCall(g.fi.pk, call)
+	name, sig, recv, ok := g.t.ifaceCall(g.fi.pk, call)
 	if !ok {
 		return "", 0, false
 	}
 	parts := []string{name}
+	if recv != nil {
+		parts = append(parts, paren(g.expr(recv, p)))
+	}
 	for i, a := range call.Args {
 		parts = append(parts, paren(g.exprAs(a, sig.Params().At(i).Type(), p)))
 	}
@@ -1523,6 +1665,12 @@ func (g *fnGen) call(call *ast.CallExpr, p *[]binding) string {
 				return tmp
 			}
 			g.failf(call, "builtin %s", id.Name)
+		}
+	}
+	if sel, ok := ast.Unparen(call.Fun).(*ast.SelectorExpr); ok && g.strOK && sel.Sel.Name == "Error" && len(call.Args) == 0 {
+		if tv, ok := g.info.Types[sel.X]; ok && isErrorType(tv.Type) {
+			g.discard(sel.X)
+			return "nil_slice" // err.Error() inside an error text: dropped
 		}
 	}
 	if c := g.t.calleeOf(g.fi.pk, call); c != nil {
